@@ -11,12 +11,12 @@ META = {
     "property_id": "C39",
     "level": "model_checking",
     "technique": "TLA+ spec Privileges.tla model-checked by TLC (bounded exhaustive + simulated histories with invariants); TLC-generated grant/revoke/role histories and the exhaustive transition dump of a small vocabulary replayed as real SQL on an engine with the mysql privilege database enabled; stored access-control state and a probe matrix (every statement class x object x user) recorded after every step and validated by TLC against Trace_Privileges.tla (Allowed/Requirement)",
-    "text": "TLC checks the privilege model (hierarchy monotone, revoke inverts grant, no orphan grants, denied statement has no effect, strict role activation within all-roles-active) on a bounded vocabulary, and generates histories of CREATE/DROP USER/ROLE, GRANT/REVOKE of privilege sets and ALL at global/database/table level, GRANT/REVOKE role (WITH ADMIN OPTION), SET ROLE, SET DEFAULT ROLE and reconnects. Each history is executed by a super user on the real engine; after every step the engine's stored privilege sets and role edges are compared with the specification state and 36 statements per user (SELECT/INSERT/UPDATE/DELETE/DROP/ALTER/CREATE INDEX/GRANT per table, CREATE TABLE per database, CREATE USER, GRANT role) are run in that user's own session, recording allow / access-denied / other error and whether the data projection is unchanged; TLC decides every expected outcome from Allowed(user, Requirement(class, object)). A second vocabulary with one user name at two hosts (u1@localhost, u1@%) checks that account-management statements act on exactly the account they name.",
-    "note": "Requirement is written from the MySQL manual (statement pages), not from auth_default.go. Documented engine behaviours modelled as named operators: AllGrantedRolesActive (no SET ROLE; a probe allowed only through a role that SET ROLE NONE deactivated is reported as its own mismatch kind) and SuperAllowsEverything. Not judged: column/routine/dynamic privileges, role-to-role grants, REVOKE ALL while GRANT OPTION is held at that level, re-GRANT of a role with a different ADMIN OPTION, sessions of dropped accounts (closed by the replayer). Probes use statements that read no column (UPDATE .. SET b = const, DELETE .. WHERE 1 = 1). Trusted: TLC, the SQL rendering and the reading of mysql_db's PrivilegeSet in harness/cmd/priv (about 150 lines).",
+    "text": "TLC checks the privilege model (hierarchy monotone, revoke inverts grant, no orphan grants, denied statement has no effect, strict role activation within all-roles-active) on a bounded vocabulary, and generates histories of CREATE/DROP USER/ROLE, GRANT/REVOKE of privilege sets and ALL at global/database/table level, GRANT/REVOKE of the dynamic privileges REPLICATION_SLAVE_ADMIN / CLONE_ADMIN ON *.* (own grant-option flag each), GRANT/REVOKE role (WITH ADMIN OPTION), SET ROLE, SET DEFAULT ROLE and reconnects. Each history is executed by a super user on the real engine; after every step the engine's stored privilege sets and role edges are compared with the specification state and 37 statements per user (SELECT/INSERT/UPDATE/DELETE/DROP/ALTER/CREATE INDEX/GRANT per table, CREATE TABLE per database, CREATE USER, GRANT role, STOP REPLICA) are run in that user's own session, recording allow / access-denied / other error and whether the data projection is unchanged; the stored state is read back once more after the probes (running statements as the users must leave it alone); TLC decides every expected outcome from Allowed(user, Requirement(class, object)). Generation is stratified towards the state in which a session's privilege set merges two entries for one table (an account and a role granted to it both hold table-level privileges on the same table): a simulate configuration steered into it (Privileges_simov.cfg), and the dumped transitions the specification marks as leading into it are sampled as their own stratum (next to an equal share per action kind and a uniform sample). A second vocabulary with one user name at two hosts (u1@localhost, u1@%) checks that account-management statements act on exactly the account they name.",
+    "note": "Requirement is written from the MySQL manual (statement pages), not from auth_default.go. Documented engine behaviours modelled as named operators: AllGrantedRolesActive (no SET ROLE; a probe allowed only through a role that SET ROLE NONE deactivated is reported as its own mismatch kind) and SuperAllowsEverything. Dynamic privileges as modelled in Privileges.tla (global only; GRANT ALL ON *.* is static-only as grant.go documents, where MySQL's ALL includes them; WITH GRANT OPTION on a dynamic grant also is the static global GRANT OPTION); STOP REPLICA counts as allowed when it ends in 'no replication controller available'. Not judged: column/routine privileges, who may GRANT a dynamic privilege, re-GRANT of a dynamic privilege without the option it is held with, GRANT/REVOKE of the static global GRANT OPTION while dynamic privileges are held, role-to-role grants, REVOKE ALL while GRANT OPTION is held at that level, re-GRANT of a role with a different ADMIN OPTION, sessions of dropped accounts (closed by the replayer). Probes use statements that read no column (UPDATE .. SET b = const, DELETE .. WHERE 1 = 1). Trusted: TLC, the SQL rendering and the reading of mysql_db's PrivilegeSet in harness/cmd/priv (about 150 lines).",
     "design_ref": "§7 C39, §3.3",
 }
 
-KINDS = ("ret", "state", "probe", "nonactive-role", "effect")
+KINDS = ("ret", "state", "matrix-state", "probe", "nonactive-role", "effect")
 
 
 def relevant(m):
@@ -46,6 +46,10 @@ def check(tier):
                          coverage=not quick, heap="6g")
         dump = pool.submit(lib.dump_transitions, "Privileges", "Privileges_dump.cfg", os.path.join(sc, "dump.ndjson"),
                            workers=2 if quick else 4, timeout=1500)
+        # 1a. histories steered into the state where a session's privilege set merges two entries for ONE table
+        #     (an account and a role granted to it both hold table-level privileges there)
+        nov, dov = (12, 6) if quick else (120, 8)
+        ovsim = pool.submit(pc.simulate, "Privileges_simov.cfg", nov, dov, lib.seed() + 500)
         # 2. simulated histories of the bounded vocabulary, probe matrix after every step
         sim_cfg, nsim, depth = ("Privileges_simq.cfg", 30, 8) if quick else ("Privileges_sim.cfg", 300, 12)
         rs, strs = pc.simulate(sim_cfg, nsim, depth, lib.seed())
@@ -57,9 +61,22 @@ def check(tier):
         rd, dtrs = dump.result()
         if len(dtrs) < 2000:
             raise lib.Inconclusive("too few transitions dumped: %d" % len(dtrs))
-        dsel = lib.sample(dtrs, 200 if quick else 3000, rnd)
+        # stratified: transitions INTO a table-overlap state (as marked by the specification), an equal share of
+        # every action kind, and a uniform sample of the rest
+        ndump = 200 if quick else 3000
+        into = [t for t in dtrs if t["ov"]["post"] and not t["ov"]["pre"]]
+        dsel = lib.sample(into, ndump // 5, rnd)
+        by_act = {}
+        for t in dtrs:
+            by_act.setdefault(t["act"]["name"], []).append(t)
+        for name in sorted(by_act):
+            dsel += lib.sample(by_act[name], max(1, (3 * ndump // 10) // len(by_act)), rnd)
+        dsel += lib.sample(dtrs, ndump - len(dsel), rnd)
         drep = b.add("dump", dsel, pc.SMALL, rmode="transitions", matrix="every")
         lib.log("[C39] replay dump: %s %.0fs" % (drep["extra"], time.time() - t0))
+        ro, otrs = ovsim.result()
+        orep = b.add("overlap", otrs, pc.FULL, matrix="every")
+        lib.log("[C39] replay overlap: %s %.0fs" % (orep["extra"], time.time() - t0))
         # 3a. thorough: a larger vocabulary (3 users, 2 roles)
         if not quick:
             rb, btrs = pc.simulate("Privileges_simbig.cfg", 150, 12, lib.seed() + 1000)
@@ -94,6 +111,10 @@ def check(tier):
         nontrivial = srep["nontrivial"] + drep["nontrivial"]
         if rows < 5000 or allowed < rows // 50 or nontrivial < 50:
             raise lib.Inconclusive("vacuous: %d probe rows, %d expected-allowed, %d user-distinguishing probes" % (rows, allowed, nontrivial))
+        overlap_steps = orep["extra"]["steps_into_table_overlap"] + srep["extra"]["steps_into_table_overlap"]
+        overlap_trans = drep["extra"]["steps_into_table_overlap"]
+        if overlap_steps < 3 or overlap_trans < 10:
+            raise lib.Inconclusive("vacuous: %d simulated steps and %d replayed transitions with an account and its role holding table privileges on one table" % (overlap_steps, overlap_trans))
         rc = v.finish()
         lib.write_evidence("C39", tier, "model_checking", {
             "states": r.distinct, "transitions": r.generated,
@@ -109,7 +130,11 @@ def check(tier):
             "account_name_exactness": {"config": "Privileges_exact.cfg", "histories": erep["extra"]["histories"], "steps": erep["cases"],
                                        "by_action": erep["extra"]["by_action"]},
             "transition_dump": {"config": "Privileges_dump.cfg", "states": rd.distinct, "transitions": len(dtrs),
-                                "replayed": len(dsel), "by_action": drep["extra"]["by_action"]},
+                                "replayed": len(dsel), "by_action": drep["extra"]["by_action"],
+                                "into_table_overlap_available": len(into), "into_table_overlap_replayed": overlap_trans},
+            "table_overlap_histories": {"config": "Privileges_simov.cfg", "histories": orep["extra"]["histories"], "depth": dov,
+                                        "steps": orep["cases"], "steps_in_table_overlap": orep["extra"]["steps_into_table_overlap"],
+                                        "by_action": orep["extra"]["by_action"]},
             "trace_lines_validated": len(b.events), "trace_tlc_wall_s": round(b.tlc_wall, 1),
             "mismatch_signatures": sigs, "forged_trace_selftest": forged,
         }, time.time() - t0, violations=len(v.violations),
